@@ -55,3 +55,19 @@ Print Assumptions C04_fn.
 Print Assumptions C04_le_reserve.
 Print Assumptions C04_total.
 Print Assumptions C04_nonvacuous.
+
+From HT Require Import Proofs.WFProofs Proofs.TxEffectProofs.
+Theorem C04_tx : forall w p ps holder a w',
+  WF w -> w_pairs w p = Some ps -> holder <> p -> holder <> p_lp ps ->
+  exec w (OSend (p_lp ps) holder p a HWithdraw) = Ok w' ->
+  exists total x0 x1,
+    token_supply w (p_lp ps) = Ok total /\
+    withdraw_amounts (bal w (p_a0 ps) p) (bal w (p_a1 ps) p) a total = Ok (x0, x1) /\
+    supply w' (p_lp ps) + a = total /\
+    bal w' (AToken (p_lp ps)) holder + a = bal w (AToken (p_lp ps)) holder /\
+    bal w' (AToken (p_lp ps)) p = bal w (AToken (p_lp ps)) p /\
+    bal w' (p_a0 ps) holder = bal w (p_a0 ps) holder + x0 /\ bal w' (p_a0 ps) p + x0 = bal w (p_a0 ps) p /\
+    bal w' (p_a1 ps) holder = bal w (p_a1 ps) holder + x1 /\ bal w' (p_a1 ps) p + x1 = bal w (p_a1 ps) p /\
+    (forall z c, c <> p -> c <> holder -> bal w' z c = bal w z c).
+Proof. exact tx_withdraw_effect. Qed.
+Print Assumptions C04_tx.
